@@ -30,11 +30,13 @@ FAMILIES = {
     "data": {
         "driver": "core", "monitor": "MonTrace",
         "exhaustive": {
-            "quick": [mc("MCDataQ", "2 vBuckets (user,user | user,sys,adv), 1 saver, <=2 saves, <=2 acks, 1 crash, store may fail")],
+            "quick": [mc("MCDataQ", "2 vBuckets (user,user | user,sys,adv), 1 saver, <=2 saves, <=2 acks, 1 crash, store may fail"),
+                      mc("MCAckQ", "2 vBuckets, 1 saver, <=2 saves, 1 ack that may be held inside the consumer's TrackOffset (between the position "
+                                   "store and the dirty mark) while saves go on, store may fail")],
             "thorough": [mc("MCData", "2 vBuckets, 2 savers, <=2 saves, 1 ack, 1 crash, store may fail", 5000),
                          mc("MCData2", "2 vBuckets, 1 saver, <=2 saves, <=2 acks, 1 crash, store may fail", 5000)],
         },
-        "simulate": {"quick": [sim("SimData", 150, 40)], "thorough": [sim("SimData", 2500, 48)]},
+        "simulate": {"quick": [sim("SimData", 150, 40), sim("SimAck", 40, 40, salt=3)], "thorough": [sim("SimData", 2500, 48), sim("SimAck", 800, 48, salt=3)]},
         "scenarios": [scen("ReplayData", "data.ndjson"), scen("WitReplayData", "wit_data.ndjson")],
     },
     # Core.tla, the server generates every event sequence: snapshot layouts, kinds, key classes, old events,
@@ -49,9 +51,12 @@ FAMILIES = {
                          mc("MCReopen", "1 vBucket, seqnos <=3, 2 fail-overs while streaming, re-open answered ok / ROLLBACK(r) with "
                                         "the history above r discarded, mut + seqno-advanced, 1 ack", 5000)],
         },
-        "simulate": {"quick": [sim("SimGen", 150, 36), sim("SimReopen", 40, 44)],
-                     "thorough": [sim("SimGen", 2500, 44), sim("SimGen2", 1200, 44), sim("SimReopen", 800, 50)]},
-        "scenarios": [scen("WitReplayGen", "gen.ndjson"), scen("WitReplayGen", "wit_gen.ndjson"), scen("WitReplayReopen", "wit_reopen.ndjson")],
+        # (rig option MetaCollection: the same behaviours with the connector's own documents configured into a collection of their own)
+        "simulate": {"quick": [sim("SimGen", 150, 36), sim("SimGen", 40, 36, salt=7, rig={"MetaCollection": "meta"}), sim("SimReopen", 40, 44)],
+                     "thorough": [sim("SimGen", 2500, 44), sim("SimGen2", 1200, 44), sim("SimGen", 600, 44, salt=7, rig={"MetaCollection": "meta"}),
+                                  sim("SimReopen", 800, 50)]},
+        "scenarios": [scen("WitReplayGen", "gen.ndjson"), scen("WitReplayGen", "wit_gen.ndjson"), scen("WitReplayReopen", "wit_reopen.ndjson"),
+                      scen("WitReplayGen", "wit_gen.ndjson", rig={"MetaCollection": "meta"})],
     },
     # Core.tla, lifecycle: notifications from bus / API / timer, close, re-open, stream ends, Close()
     "life": {
@@ -71,7 +76,8 @@ FAMILIES = {
     "fault": {
         "driver": "core", "monitor": "MonTrace",
         "exhaustive": {
-            "quick": [mc("MCFaultLatestQ", "2 vBuckets, auto-reset latest, <=1 injected failure / flush, 1 crash")],
+            "quick": [mc("MCFaultLatestQ", "2 vBuckets, auto-reset latest, <=1 injected failure / flush, 1 crash"),
+                      mc("MCFaultQ", "2 vBuckets, auto-reset earliest, <=1 injected failure / flush / seqno answer lacking a vBucket, 1 crash")],
             "thorough": [mc("MCFaultLatest", "2 vBuckets, auto-reset latest, <=2 injected failures / flushes, 1 crash", 5000),
                          mc("MCFault", "2 vBuckets, auto-reset earliest, <=2 injected failures / flushes, 1 crash", 5000)],
         },
